@@ -277,6 +277,18 @@ def _s24(s):
             call('outer', I(L)), rep(2, It, 'leaf', ('+', I(L), I(It))), lab(L), op(None, I(L))]
 
 
+@skeleton('rep-iterator-vs-a-label-of-the-namespace', 3, lambda s: s[2] != s[1])   # (a PARAMETER is reachable as `.P` too: P == Y is ambiguous)
+def _s25(s):
+    It, Y, P = s
+    # a rep inside a macro of namespace N whose arguments mention a label of N through its relative / full spelling: `.Y` and `N.Y` are the
+    # label even when the iterator (or the macro's parameter) is spelled Y - only the bare name is the iterator
+    leaf = mdef('N.leaf', ['x', 'y'], body=[op(I('x'), I('y'))])
+    fill = mdef('N.fill', [P], body=[rep(2, It, 'N.leaf', ident(f'N.{Y}', f'.{Y}'), ('+', I(It), I(P)), spelling='.leaf'),
+                                     rep(2, It, 'N.leaf', ('+', ident(f'N.{Y}', f'N.{Y}'), I(It)), I(P), spelling='.leaf')])
+    return [('ns', 'N', [leaf, fill, lab(f'N.{Y}', Y), op(None, None), call('N.fill', 5, spelling='.fill')]),
+            call('N.fill', ident(f'N.{Y}'))]
+
+
 # skeletons whose programs raise no assembler warning for ANY assignment of the names (on the unchanged tree): they must also assemble
 # with warnings treated as errors, which is the default of the fj command and of the API
 WARNING_FREE = {'arity-overloading', 'dollar', 'globals-and-externs', 'guarded-recursion', 'iterator-like-own-parameter-used-later',
